@@ -25,6 +25,7 @@ pub fn def() -> PropDef {
 
 pub fn profile() -> Profile {
     Profile {
+        text_conflict_prologue_permille: 120,
         replicas: (2, 5),
         events: (10, 140),
         max_keys: 3,
